@@ -51,7 +51,7 @@ def exec_stmt(self: Interp, s, st: State):
     before = st.fork()
     outs = m(s, st)
     for o in outs:
-        if o.kind != "normal":
+        if o.kind not in ("normal", "return"):
             continue
         saved = fr.before if hasattr(fr, "before") else None
         fr.before = before
